@@ -27,6 +27,9 @@ use crate::c10::hex;
 use crate::common::{Out, Rng};
 use crate::msops;
 
+#[path = "c10b_gap.rs"]
+mod gap;
+
 /* ------------------------------------------------------------ neutral structure of a real Miniscript */
 
 /// atoms of a key type mapped back to the ids of the neutral AST
@@ -304,7 +307,7 @@ fn self_ref(n: &Node) -> &Node { n }
 fn real_key(ctx: CtxK) -> impl Fn(u32) -> String {
     move |k| if ctx == CtxK::Tap { ast::xonly_key(k).to_string() } else { ast::full_key(k).to_string() }
 }
-fn real_hash(kind: HK, h: u32) -> String {
+pub(crate) fn real_hash(kind: HK, h: u32) -> String {
     let v = ast::hash_value(kind, h);
     if kind == HK::Hash256 {
         // hash256 displays forwards
@@ -465,6 +468,7 @@ pub fn run_ms(out: &mut Out, thorough: bool, rng: &mut Rng) -> BTreeMap<CtxK, Ve
         for n in &objs {
             n.count_frags(out);
             emit_rt_ms(out, ctx, n);
+            gap::emit_rtsane(out, ctx, n, true);
             emit_tree_ops(out, ctx, n);
             let sugar = match ctx {
                 CtxK::Bare => ast::to_ms::<PublicKey, BareCtx>(n).map(|m| m.to_string()),
@@ -586,6 +590,7 @@ fn run_malformed_ms(out: &mut Out, thorough: bool, rng: &mut Rng, ms: &BTreeMap<
 
 pub fn run_roundtrip(out: &mut Out, thorough: bool, rng: &mut Rng) {
     crate::c10::quiet_panics();
+    ast::emit_defs(out); // key kinds / sizes for the entry-point model behind `J rtsane`
     let ms = run_ms(out, thorough, rng);
     run_deep(out);
     run_malformed_ms(out, thorough, rng, &ms);
@@ -594,6 +599,11 @@ pub fn run_roundtrip(out: &mut Out, thorough: bool, rng: &mut Rng) {
     let km = key_material();
     let wps = run_wallet(out, &km);
     run_malformed_other(out, thorough, rng, &descs, &pols, &wps, &km);
+    gap::run_policies_real(out, thorough, rng, &km);
+    gap::run_wallet_gen(out, thorough, rng, &km);
+    gap::run_keyforms(out, &km);
+    gap::run_numargs(out);
+    gap::run_absurd(out, thorough, rng, &km, &descs);
     out.note("c10b_scope", "miniscripts (4 contexts, all base types, every sugar shape, stacked wrappers), descriptors (all wrappers, all key forms, tap trees to depth 128, secret keys), keys, concrete/semantic policies incl. API-only shapes, wallet policies; malformed stream to every parser".into());
 }
 
@@ -718,6 +728,18 @@ fn key_forms(km: &KeyMaterial, i: usize, xonly: bool, allow_unc: bool) -> Vec<St
     v
 }
 
+/// a key text of a specified-valid form; if the library refuses it the refusal is reported through the key-grammar
+/// judge and the run goes on with a plain key (the harness must never abort on a library change)
+pub(crate) fn key_or_fallback(out: &mut Out, text: &str, xonly: bool) -> DescriptorPublicKey {
+    match catch_unwind(AssertUnwindSafe(|| DescriptorPublicKey::from_str(text))) {
+        Ok(Ok(k)) => k,
+        r => {
+            out.line(&format!("J keyform pub {} {}", hex(text), if r.is_err() { "PANIC" } else { "rejected" }), "ok");
+            if xonly { DescriptorPublicKey::from(ast::xonly_key(200)) } else { DescriptorPublicKey::from(ast::full_key(0)) }
+        }
+    }
+}
+
 fn parse_desc(s: &str) -> Result<Descriptor<DescriptorPublicKey>, String> {
     match catch_unwind(AssertUnwindSafe(|| Descriptor::<DescriptorPublicKey>::from_str(s))) {
         Ok(Ok(d)) => Ok(d),
@@ -836,7 +858,13 @@ fn run_desc(out: &mut Out, thorough: bool, rng: &mut Rng, ms: &BTreeMap<CtxK, Ve
                 format!("wsh(and_v(v:pk({}),or_d(pk({}),older(12960))))", k, o),
                 format!("wsh(c:pk_k({}))", k), format!("wsh(or_i(0,pk({})))", k), format!("wsh(and_v(v:pkh({}),1))", k),
             ];
-            for t in texts { if i == 0 || rng.below(3) == 0 { desc_from_text(out, &km, "desc", &t, &mut valid); } }
+            // an uncompressed key is legal only outside segwit: every text below is VALID by construction,
+            // so a refusal is a judged failure (`J rt … reject:<class>`)
+            let unc = k.len() >= 130 && !k.contains("pub");
+            for t in texts {
+                if unc && (t.contains("wpkh(") || t.contains("wsh(")) { continue; }
+                if i == 0 || rng.below(3) == 0 { desc_from_text(out, &km, "desc", &t, &mut valid); }
+            }
         }
         let xo = key_forms(&km, i, true, false);
         let xo2 = key_forms(&km, i + 1, true, false);
@@ -861,7 +889,7 @@ fn run_desc(out: &mut Out, thorough: bool, rng: &mut Rng, ms: &BTreeMap<CtxK, Ve
     for d in [1usize, 2, 31, 64, 127, 128] { shapes.push(shp_comb(d, rng)); }
     for _ in 0..(if thorough { 40 } else { 6 }) { shapes.push(shp_comb(1 + rng.below(128), rng)); }
     for sh in &shapes {
-        let ik = DescriptorPublicKey::from_str(&xk[rng.below(xk.len())]).unwrap();
+        let ik = key_or_fallback(out, &xk[rng.below(xk.len())], true);
         if let Some(tree) = shp_build(sh, &leaf_ms, &mut 0) {
             if let Ok(d) = Descriptor::new_tr(ik.clone(), Some(tree)) { emit_rt_desc(out, &km, "desc-tr-api", &d); valid.push(d.to_string()); }
         }
@@ -872,8 +900,8 @@ fn run_desc(out: &mut Out, thorough: bool, rng: &mut Rng, ms: &BTreeMap<CtxK, Ve
     }
     // 3. the miniscript objects of the first part (all sugar shapes, B-typed) under wsh / sh / bare / tr, built by API
     let mut tr = ToDescKeys {
-        full: (0..10).map(|i| DescriptorPublicKey::from_str(&key_forms(&km, i, false, false)[[0usize, 4, 6, 8, 14, 15, 17, 2, 5, 20][i]]).unwrap()).collect(),
-        xonly: (0..10).map(|i| DescriptorPublicKey::from_str(&key_forms(&km, i, true, false)[[0usize, 4, 6, 8, 14, 15, 17, 2, 5, 20][i]]).unwrap()).collect(),
+        full: (0..10).map(|i| key_or_fallback(out, &key_forms(&km, i, false, false)[[0usize, 4, 6, 8, 14, 15, 17, 2, 5, 20][i]], false)).collect(),
+        xonly: (0..10).map(|i| key_or_fallback(out, &key_forms(&km, i, true, false)[[0usize, 4, 6, 8, 14, 15, 17, 2, 5, 20][i]], true)).collect(),
     };
     let cap = if thorough { 4000 } else { 500 };
     for (ctx, kind) in [(CtxK::Segwitv0, "desc-wsh-api"), (CtxK::Legacy, "desc-sh-api"), (CtxK::Bare, "desc-bare-api"), (CtxK::Tap, "desc-trleaf-api")] {
@@ -900,7 +928,7 @@ fn run_desc(out: &mut Out, thorough: bool, rng: &mut Rng, ms: &BTreeMap<CtxK, Ve
     }
     // a bare descriptor whose script is `pkh(K)` (accepted by `Descriptor::new_bare`)
     {
-        let k = DescriptorPublicKey::from_str(&ast::full_key(0).to_string()).unwrap();
+        let k = key_or_fallback(out, &ast::full_key(0).to_string(), false);
         let ms: Result<Miniscript<DescriptorPublicKey, BareCtx>, _> = Miniscript::from_ast(Terminal::PkH(k)).and_then(|m| Miniscript::from_ast(Terminal::Check(Arc::new(m))));
         if let Ok(d) = ms.and_then(Descriptor::new_bare) { emit_rt_desc(out, &km, "desc-bare-api", &d); }
     }
@@ -924,7 +952,6 @@ fn run_desc(out: &mut Out, thorough: bool, rng: &mut Rng, ms: &BTreeMap<CtxK, Ve
                 // the text we started from differs from `s` only by the checksum and `'`/`h` spelling
                 "pass".into()
             });
-            if tok.starts_with("reject:") { out.count(&format!("rt desc-secret {}", tok)); continue; }
             out.count(&format!("rt desc-secret {}", tok));
             out.line(&format!("J rt desc-secret {} {}", hex(&t), tok), "ok");
         }
@@ -943,7 +970,7 @@ fn run_desc(out: &mut Out, thorough: bool, rng: &mut Rng, ms: &BTreeMap<CtxK, Ve
             "pass".into()
         });
         out.count(&format!("rt key {}", tok));
-        if !tok.starts_with("reject:") { out.line(&format!("J rt key {} {}", hex(t), tok), "ok"); }
+        out.line(&format!("J rt key {} {}", hex(t), tok), "ok");
     }
     for t in &sec_forms {
         let tok = guard(|| {
@@ -956,7 +983,7 @@ fn run_desc(out: &mut Out, thorough: bool, rng: &mut Rng, ms: &BTreeMap<CtxK, Ve
             "pass".into()
         });
         out.count(&format!("rt seckey {}", tok));
-        if !tok.starts_with("reject:") { out.line(&format!("J rt seckey {} {}", hex(t), tok), "ok"); }
+        out.line(&format!("J rt seckey {} {}", hex(t), tok), "ok");
     }
     valid.extend(key_texts.into_iter().take(30));
     valid
@@ -966,7 +993,7 @@ fn desc_from_text(out: &mut Out, km: &KeyMaterial, kind: &str, t: &str, valid: &
     match parse_desc(t) {
         Ok(d) => { emit_rt_desc(out, km, kind, &d); if valid.len() < 300 { valid.push(d.to_string()); } }
         Err(e) if e == "PANIC" => out.line(&format!("J nopanic desc-fromstr {} PANIC", hex(t)), "ok"),
-        Err(e) => out.count(&format!("rt {} rejected-input:{}", kind, e)),
+        Err(e) => { out.count(&format!("rt {} rejected-input:{}", kind, e)); out.line(&format!("J rt {} {} reject:{}", kind, hex(t), e), "ok"); }
     }
 }
 
@@ -1120,7 +1147,7 @@ fn run_wallet(out: &mut Out, km: &KeyMaterial) -> Vec<String> {
             "pass".into()
         });
         out.count(&format!("rt walletpolicy {}", tok));
-        if !tok.starts_with("reject:") { out.line(&format!("J rt walletpolicy {} {}", hex(t), tok), "ok"); valid.push(t.to_string()); }
+        out.line(&format!("J rt walletpolicy {} {}", hex(t), tok), "ok"); valid.push(t.to_string());
     }
     // from full descriptors: template text, key information, and back
     let x = |i: usize| format!("[d34db33f/48'/0'/{}']{}", i, km.xpubs[i % km.xpubs.len()]);
@@ -1134,21 +1161,16 @@ fn run_wallet(out: &mut Out, km: &KeyMaterial) -> Vec<String> {
             let d = match Descriptor::<DescriptorPublicKey>::from_str(t) { Ok(d) => d, Err(e) => return format!("reject:{}", err_class(&e.to_string())) };
             let w = match WalletPolicy::from_str(t) { Ok(w) => w, Err(e) => return format!("reject:{}", err_class(&e.to_string())) };
             let s = w.to_string();
-            let mut w2 = match WalletPolicy::from_str(&s) { Ok(w) => w, Err(e) => return format!("fail:template-parse-err:{}", err_class(&e.to_string())) };
+            let w2 = match WalletPolicy::from_str(&s) { Ok(w) => w, Err(e) => return format!("fail:template-parse-err:{}", err_class(&e.to_string())) };
             if w2.to_string() != s { return "fail:not-fixed-point".into(); }
-            // unique keys in order of first appearance
-            let mut keys: Vec<DescriptorPublicKey> = vec![];
-            let w_keys = match WalletPolicy::from_descriptor(&d) { Ok(_) => d.iter_pk().collect::<Vec<_>>(), Err(_) => vec![] };
-            let _ = w_keys;
             match w.clone().into_descriptor() {
                 Ok(back) => { if shape_desc(&back) != shape_desc(&d) { return "fail:into-descriptor-differs".into(); } }
                 Err(e) => return format!("fail:into-descriptor:{}", err_class(&e.to_string())),
             }
-            let _ = (&mut w2, &mut keys);
             "pass".into()
         });
         out.count(&format!("rt walletpolicy-desc {}", tok));
-        if !tok.starts_with("reject:") { out.line(&format!("J rt walletpolicy-desc {} {}", hex(t), tok), "ok"); }
+        out.line(&format!("J rt walletpolicy-desc {} {}", hex(t), tok), "ok");
     }
     valid
 }
